@@ -140,7 +140,7 @@ pub fn generate(a: &Args) {
     // demodulators: polar grid, at / between points, decision boundaries, far away, sigma from 1e-2 to 1e2
     let sigmas = [0.01, 0.05, 0.3, 1.0, 3.0, 100.0];
     let radii = [0.0, 1e-6, 0.5, 1.0, 2.0, 4.0, 50.0, 1000.0];
-    let nang = if th { 64 } else { 16 };
+    let nang = if th { 128 } else { 16 };
     for &sg in &sigmas {
         for &rad in &radii {
             for k in 0..nang {
@@ -150,14 +150,14 @@ pub fn generate(a: &Args) {
         }
         for &x in &[-1000.0, -50.0, -4.0, -1.0, -1e-9, 0.0, 1e-9, 0.3, 1.0, 4.0, 50.0, 1000.0] { demb(&mut out, x, sg); }
     }
-    for _ in 0..(if th { 6000 } else { 500 }) {
+    for _ in 0..(if th { 60000 } else { 500 }) {
         let sg = 10f64.powf(rng.unit() * 4.0 - 2.0);
         let r = Complex::new(rng.gauss() * 1.5, rng.gauss() * 1.5);
         dem8(&mut out, r, sg, "random");
         demb(&mut out, rng.gauss() * 2.0, sg);
     }
     // noiseless round trip: every bit sequence of length <= 9 (12 thorough) for 8PSK (multiples of 3) and BPSK (<= 6), random long ones
-    let max3 = if th { 4 } else { 3 };
+    let max3 = if th { 5 } else { 3 };
     for t in 1..=max3 {
         let n = 3 * t;
         for x in 0u32..(1u32 << n) {
